@@ -11,6 +11,7 @@
 //        [4,seq]                         SetBatchSeqNo
 //        [5,height,[n_0..n_{k-1}]]       restart: a fresh pool over a ledger with these nonces
 //        [6,k]                           k rounds of (GenerateBlock; CommitTransactions(that batch))
+//        [7,acct,n]                      the ledger oracle (GetAccountNonce) now reports n for acct
 //   tx = [acct,nonce,id,ts]; account i is the i-th smallest of k fixed addresses in the string
 //   order the pool itself uses.
 // output (one JSON object per history): {"steps":[obs,...]} with
@@ -188,7 +189,7 @@ func (w *world) step(op []json.RawMessage) (bs []batchOut, removed uint64, err e
 	if err != nil {
 		return nil, 0, err
 	}
-	need := map[int64]int{0: 5, 1: 1, 2: 2, 3: 3, 4: 2, 5: 3, 6: 2}
+	need := map[int64]int{0: 5, 1: 1, 2: 2, 3: 3, 4: 2, 5: 3, 6: 2, 7: 3}
 	if n, ok := need[code]; !ok || len(op) != n {
 		return nil, 0, fmt.Errorf("bad op %d", code)
 	}
@@ -292,6 +293,13 @@ func (w *world) step(op []json.RawMessage) (bs []batchOut, removed uint64, err e
 			}
 			w.pool.CommitTransactions(st)
 		}
+	case 7:
+		a, _ := num(op[1])
+		n, _ := num(op[2])
+		if a < 0 || int(a) >= len(w.names) || n < 0 {
+			return nil, 0, fmt.Errorf("bad account")
+		}
+		w.ledger[w.names[a]] = uint64(n)
 	}
 	return bs, removed, nil
 }
